@@ -536,29 +536,3 @@ func H_lifecycle_readerr() {
 	verifCheckClosed(w)
 	verifReach("lifecycle-readerr")
 }
-
-// C05: whatever rename-cookie state earlier history left behind (for example
-// ten or more unmatched move-outs), handling a further move half terminates and
-// the control calls return.
-func H_ctl_ring() {
-	verifKReset()
-	w := verifNewInotifyN(0, 1, 0)
-	for i := range w.cookies {
-		w.cookies[i] = koekje{cookie: verifU32("ringcookie"), path: "/old"}
-	}
-	w.cookieIndex = verifU8("ringindex")
-	verifAssume(w.cookieIndex <= 9)
-	verifSetupTable(w, 2)
-	c := verifU32("cookie")
-	verifAssume(c != 0)
-	half := [...]uint32{unix.IN_MOVED_FROM, unix.IN_MOVED_TO}[verifChoose("half", 2)]
-	done := make(chan bool, 1)
-	go func() {
-		_, ok := verifDeliver(w, verifTable[0].wd, half, c)
-		done <- ok
-	}()
-	verifAssert(<-done, "the notification is handled")
-	_ = w.WatchList()
-	verifAssert(w.cookieIndex <= 9, "ring index in range")
-	verifReach("ctl-ring")
-}
